@@ -107,12 +107,55 @@ CHECKS.update({
               "postconditions Deterministic, Stochastic, TrimmedA of Automata.tla; cyclic deterministic inputs and Sat(3)/Bool "
               "for trimming."),
         ref="DESIGN.md section 6 (C13)", technique=TVA),
+    "C14": dict(
+        text=("counterexample(), ==, hash and min of field_wfsa on random 1-3 state automata and, for each, an equal copy, a "
+              "state permutation, a redundant state, a split state, a single non-integer weight change, the empty language and "
+              "a random machine: TLC decides equivalence exactly over the rationals (all strings shorter than nA+nB), checks "
+              "that a returned string really distinguishes with the reported weights, that equality and hashing agree, that "
+              "min terminates, has as many states as the Hankel rank (Gaussian elimination in FieldWfsa.tla) and preserves "
+              "the weights."),
+        ref="DESIGN.md section 6 (C14)",
+        technique="TLA+ decision procedures (FieldWfsa.tla: bounded equivalence, Hankel rank) evaluated by TLC on every recorded call (trace validation)",
+        note=TRUST + " numpy's floating-point Gram-Schmidt/allclose decisions are outside the model; inputs are kept well conditioned."),
+    "C15": dict(
+        text=("closure_scc_based, closure_reference, closure(), solve_left, solve_right and blocks of WeightedGraph on random "
+              "graphs (self loops, nested cycles, isolated nodes, node names of mixed types): judged by TLC against the least "
+              "fixed points of Linear.tla (K = I + K A, x = xA + b, x = Ax + b) in Sat(3)/Sat(2)/Bool, exact rationals "
+              "(acyclic: finite sums; cyclic contractive: unique solution by substitution) and MaxTimes; blocks must be exactly "
+              "the SCCs in an edge-compatible order."),
+        ref="DESIGN.md section 6 (C15)",
+        technique="TLA+ reference semantics (Linear.tla) evaluated by TLC on every recorded call (trace validation)"),
+    "C16": dict(
+        text=("The semiring laws and the star law are model-checked on every triple of the model carriers (MCWeights.tla); the "
+              "real +, *, star, zero, one of the 8 shipped classes (singleton and freshly constructed operands, exact and float "
+              "operands) are tabulated exhaustively on those carriers and every table entry is compared by TLC with the "
+              "model's operation through the abstraction function (exact; 2^-20 fixed point for Log and float operands)."),
+        ref="DESIGN.md section 6 (C16)",
+        technique="TLA+ model of the weight domains (Semirings.tla) with laws model-checked by TLC; exhaustive operation tables of the real classes validated against it"),
     "C17": dict(
         text=("to_cfg (left/right; also automata whose state names are alphabet symbols) judged by Weight(G,s) = AWeight(M,s); "
               "WFSA.to_bytes and CFG.to_bytes on alphabets mixing 1-4 byte characters and multi-character symbols judged by "
               "ByteWeight (UTF-8 defined arithmetically in TraceAutomata.tla) on every byte string up to L over the occurring "
               "bytes, including truncated encodings."),
         ref="DESIGN.md section 6 (C17)", technique=TVA),
+    "C18": dict(
+        text=("interegular_to_wfsa on random regex ASTs (literals, classes, negated classes, dot, concatenation, alternation, "
+              "* + ? {m,n}, case-insensitive groups; character sets with non-ASCII characters and characters outside the "
+              "pattern): the set of strings up to L with non-zero weight equals the language TLC computes from Regex.tla "
+              "(cross-checked with re.fullmatch as an oracle sanity test); per-state outgoing + final mass is one, no epsilon "
+              "arc."),
+        ref="DESIGN.md section 6 (C18)",
+        technique="TLA+ regex semantics (Regex.tla) evaluated by TLC on every recorded call (trace validation)",
+        note=TRUST + " The pattern printer, interegular's parser and Python's re case table are trusted."),
+    "C19": dict(
+        text=("LarkStuff.char_cfg (left/right recursion) and byte_cfg on random Lark grammars (? * + |, string/regex/"
+              "case-insensitive terminals, %ignore, 1-3 byte characters): the accepted texts up to L equal CharLang of Lark.tla, "
+              "the accepted byte strings are exactly the UTF-8 encodings of CharLang (UTF-8 defined arithmetically in the "
+              "spec), the produced grammars are also evaluated by the oracle itself on sampled strings, names of terminals "
+              "and nonterminals are disjoint."),
+        ref="DESIGN.md section 6 (C19)",
+        technique="TLA+ Lark/regex semantics (Lark.tla, Regex.tla) evaluated by TLC on every recorded call (trace validation)",
+        note=TRUST + " lark's grammar loader, interegular and the Lark/regex pretty-printer are trusted."),
     "C20": dict(
         text=("locally_normalize on exact-rational grammars (per-head sums one, total weight one, Weight'(x) * Z = "
               "Weight(x) for all x up to L) and add_EOS over all semirings (Weight(x eos) = Weight(x), zero unless "
